@@ -166,13 +166,13 @@ chk("C08",
     "Props/C08.lean: for each of the nine configuration builders a configuration lacking (or marking -1) any parameter the builder reads is refused "
     "with ValueError at configuration build; any zero or negative param_* number (other than the marker -1) is refused by every builder; for PiBas "
     "every raw configuration is refused, or setup fails, or (under the no-collision hypotheses) every stored keyword's search returns exactly its "
-    "list. Tie: the models' builders against the real ones over a grid (every field deleted once; length fields over "
+    "list (PiBas.mismatch_is_loud: an accepted PiBas configuration with prf_f_output_length != param_lambda makes EDBSetup raise); for SSE2 every raw configuration is refused or yields a scheme that is correct outright (SSE2.refused_or_correct: setup returns, tokens are generated, every stored keyword's search is exact - no hypothesis about the run). Tie: the models' builders against the real ones over a grid (every field deleted once; length fields over "
     "{8,16,20,24,32,48,0,-1,-2}, block/capacity fields over {-8,-2,-1,0,1,2,3,5,64}, one non-integer each; every primitive name over aliases, another "
     "primitive's name, unknown, empty): same accept/refuse decision at the same stage with the same error class and the same index/results when "
     "accepted (non-integers: refused/accepted only). Direct oracle on the real code over the same grid: an exception somewhere, or every search "
     "(stored and absent keywords) correct; missing needed parameter => refused by SSEConfig itself.",
     SCHEME_TRUST + " Non-integer values of integer fields are outside the theorems (enumerated on the real code).",
-    "Lean 4 proof (refusal theorems for all nine builders, refused-or-correct for PiBas) + recorded-oracle correspondence over a configuration grid + direct oracle",
+    "Lean 4 proof (refusal theorems for all nine builders, refused-or-correct for PiBas and SSE2) + recorded-oracle correspondence over a configuration grid + direct oracle",
     "6/C08")
 chk("C09",
     "Props/C09.lean over the composed model - the client program extracted from frontend/client/** (a Service object freshly loaded from disk for "
